@@ -191,7 +191,8 @@ func c09Next(g *prog.Gen, idx int, hist []*prog.Step) *prog.Op {
 	case r < 86:
 		return &prog.Op{Kind: "getObject", Caller: caller, B: b, K: k}
 	case r < 92:
-		return &prog.Op{Kind: "listVersions", Caller: caller, B: b}
+		// half of the listings are read page by page (max-keys 1…3): the pages together must be the listing
+		return &prog.Op{Kind: "listVersions", Caller: caller, B: b, Max: []int{0, 0, 1, 2, 3}[g.R.Intn(5)]}
 	case r < 96:
 		return &prog.Op{Kind: "putVersioning", Caller: "root", B: b, On: g.R.Chance(60)}
 	case r < 98:
@@ -228,7 +229,7 @@ func init() {
 	}
 	checks["c09"] = checkDef{"C09",
 		"adaptive programs on a versioned bucket (two thirds with objects that predate enabling): put / copy (incl. from a version) / delete / delete-by-version / batch delete / get- and head-by-version (issued ids, `null`, a never-issued id) / list-versions / enable-suspend / tagging, then ListObjectVersions and a GET of every id ever issued; version ids are read from the implementation's answers and handed to the model. Compared with Model.Gw.step (per-key version stacks). Non-trivial = program reaches the bucket; distinct by op list.",
-		[]checkFn{fam("versions-xattr", false, false, 901, 240, 6000), fam("versions-namedtmp", false, true, 902, 60, 2000),
+		[]checkFn{fam("versions-xattr", false, false, 901, 240, 6000), fam("versions-namedtmp", false, true, 902, 60, 2000), fam("versions-sidecar", true, false, 905, 16, 300),
 			// multipart completions replace current versions too: the programs of C08's versioned family, judged here
 			func(a lib.Args, res *lib.Result) error {
 				return runPrograms(a, res, progOpts{name: "versions-multipart", prop: "C09", programs: tierN(a, 40, 1200), next: c08Next(true), versioning: true,
